@@ -178,7 +178,8 @@ theorem arrayMessage_eq (m : Msg) (sep : Byte) :
   rw [hl]
   split
   · rfl
-  · exact argsLoop_eq sep _ m [] 0
+  · simp only [Bool.not_true, Bool.false_eq_true, if_false]
+    exact argsLoop_eq sep _ m [] 0
 
 /- the contiguous loop always terminates within its fuel -/
 
